@@ -165,3 +165,34 @@ def table(names: str | None):
     if names == "mixed":
         return vname_mixed, (lambda v: mixed_to_int(v.name))
     return vname, vint
+
+
+# ------------------------------------------------------------------------------------- small-scope exhaustive (session 4)
+def all_labelled_admgs(n):
+    """EVERY labelled acyclic directed mixed graph on nodes 0..n-1 (each unordered pair: no / u->v / v->u directed edge,
+    with or without a bidirected edge; cyclic orientations dropped): 1, 6, 200, 34752 graphs for n = 1..4."""
+    pairs = list(itt.combinations(range(n), 2))
+    for dsel in itt.product([0, 1, 2], repeat=len(pairs)):
+        di = [[u, v] if s == 1 else [v, u] for (u, v), s in zip(pairs, dsel) if s]
+        # acyclic? (n <= 4: repeated removal of sources)
+        left, edges = set(range(n)), list(di)
+        while left:
+            src = [v for v in left if not any(e[1] == v for e in edges)]
+            if not src:
+                break
+            left -= set(src)
+            edges = [e for e in edges if e[0] in left]
+        if left:
+            continue
+        for bsel in itt.product([0, 1], repeat=len(pairs)):
+            yield {"nodes": list(range(n)), "di": [list(e) for e in di],
+                   "bi": [[u, v] for (u, v), s in zip(pairs, bsel) if s]}
+
+
+def all_role_assignments(n, roles, required):
+    """every map node -> role in `roles` + (None,) with each role of `required` used at least once;
+    yields dicts role -> sorted node list"""
+    for sel in itt.product(list(roles) + [None], repeat=n):
+        out = {r: [v for v in range(n) if sel[v] == r] for r in roles}
+        if all(out[r] for r in required):
+            yield out
